@@ -54,6 +54,13 @@ fn deep_doc() -> Vec<u8> {
         }
         fb.add(DEEP_FIRST + i, 0, &Val::dict(d));
     }
+    // page-tree nodes whose /Parent references form cycles (of two and of three): an error in strict mode; in tolerant
+    // mode the optional /Parent that closes the cycle is dropped, wherever the load happened to enter the cycle
+    fb.add(10, 0, &Val::dict(vec![("Type", Val::name("Pages")), ("Parent", Val::r(11)), ("Kids", Val::Array(vec![])), ("Count", Val::Int(0))]));
+    fb.add(11, 0, &Val::dict(vec![("Type", Val::name("Pages")), ("Parent", Val::r(10)), ("Kids", Val::Array(vec![])), ("Count", Val::Int(0))]));
+    fb.add(12, 0, &Val::dict(vec![("Type", Val::name("Pages")), ("Parent", Val::r(13)), ("Kids", Val::Array(vec![])), ("Count", Val::Int(0))]));
+    fb.add(13, 0, &Val::dict(vec![("Type", Val::name("Pages")), ("Parent", Val::r(14)), ("Kids", Val::Array(vec![])), ("Count", Val::Int(0))]));
+    fb.add(14, 0, &Val::dict(vec![("Type", Val::name("Pages")), ("Parent", Val::r(12)), ("Kids", Val::Array(vec![])), ("Count", Val::Int(0))]));
     fb.finish_table(&[("Root", Val::r(1))], Split::Runs);
     fb.bytes()
 }
@@ -70,6 +77,9 @@ pub fn alphabet_deep() -> Vec<Call> {
     for n in ns {
         a.push((Kind::GetPagesNode, n));
         a.push((Kind::Resolve, n));
+    }
+    for n in [10u64, 11, 12, 13, 14] {
+        a.push((Kind::GetPagesNode, n));
     }
     a.push((Kind::GetPage, 0));
     a
@@ -168,6 +178,20 @@ fn e(err: &pdf::error::PdfError) -> String {
     format!("ERR:{}", err_variant(err))
 }
 
+/// how many page-tree nodes hang above a node in the typed value (part of the value: every node holds its parent)
+fn ancestors(first: Option<&PagesRc>) -> usize {
+    let mut n = 0;
+    let mut cur = first.cloned();
+    while let Some(p) = cur {
+        n += 1;
+        if n > 300 {
+            break;
+        }
+        cur = p.parent.clone();
+    }
+    n
+}
+
 /// execute one call, return a canonical digest of the answer
 pub fn exec<OC, SC>(file: &File<Vec<u8>, OC, SC, NoLog>, call: &Call) -> String
 where
@@ -184,8 +208,8 @@ where
         },
         Kind::GetPagesNode => match r.get::<PagesNode>(Ref::new(pr)) {
             Ok(node) => match &*node {
-                PagesNode::Tree(t) => format!("Tree(count={}, kids={:?})", t.count, t.kids.iter().map(|k| k.get_inner().id).collect::<Vec<_>>()),
-                PagesNode::Leaf(p) => format!("Leaf(rotate={}, media={:?})", p.rotate, p.media_box.map(|b| (b.right, b.top))),
+                PagesNode::Tree(t) => format!("Tree(count={}, kids={:?}, ancestors={})", t.count, t.kids.iter().map(|k| k.get_inner().id).collect::<Vec<_>>(), ancestors(t.parent.as_ref())),
+                PagesNode::Leaf(p) => format!("Leaf(rotate={}, media={:?}, ancestors={})", p.rotate, p.media_box.map(|b| (b.right, b.top)), ancestors(Some(&p.parent))),
             },
             Err(x) => e(&x),
         },
@@ -246,7 +270,8 @@ where
     }
 }
 
-pub const CONFIGS: &[&str] = &["both-caches", "object-cache-only", "stream-cache-only", "own-map-caches", "no-cache"];
+pub const CONFIGS: &[&str] = &["both-caches", "object-cache-only", "stream-cache-only", "own-map-caches", "no-cache", "both-caches/tolerant", "object-cache-only/tolerant", "stream-cache-only/tolerant", "own-map-caches/tolerant", "no-cache/tolerant"];
+pub const N_CACHE_CONFIGS: usize = 5;
 
 pub fn run_sequence(bytes: &[u8], cfg: usize, seq: &[Call]) -> Vec<String> {
     macro_rules! go {
@@ -257,12 +282,13 @@ pub fn run_sequence(bytes: &[u8], cfg: usize, seq: &[Call]) -> Vec<String> {
             }
         }};
     }
-    match cfg {
-        0 => go!(FileOptions::cached()),
-        1 => go!(FileOptions::uncached().cache(SyncCache::<PlainRef, OCResult>::new(), NoCache)),
-        2 => go!(FileOptions::uncached().cache(NoCache, SyncCache::<PlainRef, SCResult>::new())),
-        3 => go!(FileOptions::uncached().cache(SeqCache::<OCResult>::new(), SeqCache::<SCResult>::new())),
-        _ => go!(FileOptions::uncached()),
+    let po = if cfg >= N_CACHE_CONFIGS { ParseOptions::tolerant() } else { ParseOptions::strict() };
+    match cfg % N_CACHE_CONFIGS {
+        0 => go!(FileOptions::cached().parse_options(po)),
+        1 => go!(FileOptions::uncached().cache(SyncCache::<PlainRef, OCResult>::new(), NoCache).parse_options(po)),
+        2 => go!(FileOptions::uncached().cache(NoCache, SyncCache::<PlainRef, SCResult>::new()).parse_options(po)),
+        3 => go!(FileOptions::uncached().cache(SeqCache::<OCResult>::new(), SeqCache::<SCResult>::new()).parse_options(po)),
+        _ => go!(FileOptions::uncached().parse_options(po)),
     }
 }
 
@@ -397,7 +423,7 @@ pub fn run(tier: Tier, _seed: u64, tally: &mut Tally) -> CheckMeta {
             .into_par_iter()
             .map(|i| {
                 let mut t = Tally::new();
-                for cfg in 0..CONFIGS.len() {
+                for cfg in 0..N_CACHE_CONFIGS {
                     check_seq(&bytes, &reference, variant, cfg, &[alpha[i]], &mut t);
                     for j in 0..n {
                         check_seq(&bytes, &reference, variant, cfg, &[alpha[i], alpha[j]], &mut t);
@@ -424,7 +450,7 @@ pub fn run(tier: Tier, _seed: u64, tally: &mut Tally) -> CheckMeta {
                 .into_par_iter()
                 .map(|i| {
                     let mut t = Tally::new();
-                    for cfg in 0..CONFIGS.len() {
+                    for cfg in 0..N_CACHE_CONFIGS {
                         for j in 0..m {
                             // pairs inside the narrow alphabet were done above
                             if alpha.contains(&wide[i]) && alpha.contains(&wide[j]) {
@@ -494,33 +520,36 @@ pub fn run(tier: Tier, _seed: u64, tally: &mut Tally) -> CheckMeta {
         let bytes = c12_doc(2);
         let alpha = alphabet_deep();
         n_deep = alpha.len();
-        let reference: std::collections::HashMap<Call, String> = alpha.iter().map(|c| (*c, run_sequence(&bytes, 4, &[*c]).pop().unwrap())).collect();
-        for (c, a) in &reference {
-            if a.starts_with("ERR:") {
-                tally.notes.push(format!("deep chain: {} alone answers {}", call_name(c), a));
+        for tolerant in [false, true] {
+            let off = if tolerant { N_CACHE_CONFIGS } else { 0 };
+            let reference: std::collections::HashMap<Call, String> = alpha.iter().map(|c| (*c, run_sequence(&bytes, off + 4, &[*c]).pop().unwrap())).collect();
+            for (c, a) in &reference {
+                if a.starts_with("ERR:") {
+                    tally.notes.push(format!("deep chain ({}): {} alone answers {}", if tolerant { "tolerant" } else { "strict" }, call_name(c), a));
+                }
             }
-        }
-        let n = alpha.len();
-        let parts: Vec<Tally> = (0..n)
-            .into_par_iter()
-            .map(|i| {
-                let mut t = Tally::new();
-                for cfg in 0..CONFIGS.len() {
-                    check_seq(&bytes, &reference, 2, cfg, &[alpha[i]], &mut t);
-                    for j in 0..n {
-                        check_seq(&bytes, &reference, 2, cfg, &[alpha[i], alpha[j]], &mut t);
-                        if cfg == 0 || cfg == 3 || tier.thorough() {
-                            for k in 0..n {
-                                check_seq(&bytes, &reference, 2, cfg, &[alpha[i], alpha[j], alpha[k]], &mut t);
+            let n = alpha.len();
+            let parts: Vec<Tally> = (0..n)
+                .into_par_iter()
+                .map(|i| {
+                    let mut t = Tally::new();
+                    for cfg in 0..N_CACHE_CONFIGS {
+                        check_seq(&bytes, &reference, 2, off + cfg, &[alpha[i]], &mut t);
+                        for j in 0..n {
+                            check_seq(&bytes, &reference, 2, off + cfg, &[alpha[i], alpha[j]], &mut t);
+                            if cfg == 0 || cfg == 3 || tier.thorough() {
+                                for k in 0..n {
+                                    check_seq(&bytes, &reference, 2, off + cfg, &[alpha[i], alpha[j], alpha[k]], &mut t);
+                                }
                             }
                         }
                     }
-                }
-                t
-            })
-            .collect();
-        for p in parts {
-            tally.merge(p);
+                    t
+                })
+                .collect();
+            for p in parts {
+                tally.merge(p);
+            }
         }
     }
     // corpus: the complete walk of every repository file (pages, resources, fonts, images, operators, trees, every object by number)
@@ -557,7 +586,8 @@ pub fn replay(case: &Value, tally: &mut Tally) {
     let bytes = c12_doc(variant);
     let alpha = alphabet_wide(variant);
     let seq: Vec<Call> = case["calls"].as_array().unwrap().iter().map(|c| *alpha.iter().find(|(k, o)| format!("{:?}", k) == c[0].as_str().unwrap() && *o == c[1].as_u64().unwrap()).expect("call in alphabet")).collect();
-    let reference: std::collections::HashMap<Call, String> = alpha.iter().map(|c| (*c, run_sequence(&bytes, 4, &[*c]).pop().unwrap())).collect();
+    let ref_cfg = if cfg >= N_CACHE_CONFIGS { N_CACHE_CONFIGS + 4 } else { 4 };
+    let reference: std::collections::HashMap<Call, String> = alpha.iter().map(|c| (*c, run_sequence(&bytes, ref_cfg, &[*c]).pop().unwrap())).collect();
     println!("config {} calls {:?}", CONFIGS[cfg], seq.iter().map(call_name).collect::<Vec<_>>());
     println!("answers: {:?}", run_sequence(&bytes, cfg, &seq));
     check_seq(&bytes, &reference, variant, cfg, &seq, tally);
